@@ -95,6 +95,7 @@ type dryRun struct {
 	fr     *frame
 	notes  []modNote
 	all    bool
+	allPlain bool // some havoc-all did not come from a call with an assumed frame
 	baseRgn uint32 // regions allocated after this number are born inside the loop
 }
 
@@ -112,12 +113,16 @@ func (d *dryRun) noteRegion(r *Term, t types.Type) {
 func (d *dryRun) noteRegionAll(r *Term) {
 	d.each(func(x *dryRun) { x.notes = append(x.notes, modNote{level: 2, R: r}) })
 }
-func (d *dryRun) noteAll() { d.each(func(x *dryRun) { x.all = true }) }
+func (d *dryRun) noteAll() { d.each(func(x *dryRun) { x.all = true; x.allPlain = true }) }
+
+// noteAllKeeping: everything may change except the root contract's preserved regions.
+func (d *dryRun) noteAllKeeping() { d.each(func(x *dryRun) { x.all = true }) }
 
 type modSet struct {
 	cells   []modNote
 	regions []modNote
 	all     bool
+	allPlain bool
 	keys    map[string]bool
 }
 
@@ -141,6 +146,8 @@ func (m *modSet) add(n modNote) bool {
 }
 
 type loopCut struct {
+	headCalls *Term
+	headHeap  Heap
 	li       *loopInfo
 	invs     []loopInv
 	variant  *Term // value at the loop head of the cut iteration (nil: none)
@@ -219,9 +226,13 @@ func collectVars(v Value, set map[*Term]bool) {
 func (e *Engine) applyHavoc(st *State, ms *modSet, fresh map[*Term]bool) {
 	c := e.C
 	if ms.all {
+		old := st.heap
 		c.havocAll(&st.heap)
 		for k := 0; k < NKinds; k++ {
 			fresh[st.heap.K[k]] = true
+		}
+		if !ms.allPlain && e.cur != nil {
+			e.restoreKept(st, old)
 		}
 		return
 	}
@@ -284,7 +295,7 @@ func (e *Engine) loopEnter(fr *frame, li *loopInfo, pred *ssa.BasicBlock, st *St
 			defer func() {
 				if r := recover(); r != nil {
 					if _, ok := r.(Unsupported); ok {
-						d.all = true // could not analyse the body: assume it writes anything
+						d.all, d.allPlain = true, true // could not analyse the body: assume it writes anything
 						return
 					}
 					panic(r)
@@ -298,14 +309,18 @@ func (e *Engine) loopEnter(fr *frame, li *loopInfo, pred *ssa.BasicBlock, st *St
 			ms.all = true
 			changed = true
 		}
+		if d.allPlain && !ms.allPlain {
+			ms.allPlain = true
+			changed = true
+		}
 		for _, n := range d.notes {
 			// regions born inside the loop body do not exist at the head
 			if n.R.IsConst() && n.R.Val > uint64(FreshBase+baseRgn) {
 				continue
 			}
 			if Mentions(n.R, fresh) {
-				if !ms.all {
-					ms.all = true
+				if !ms.all || !ms.allPlain {
+					ms.all, ms.allPlain = true, true
 					changed = true
 				}
 				continue
@@ -322,7 +337,7 @@ func (e *Engine) loopEnter(fr *frame, li *loopInfo, pred *ssa.BasicBlock, st *St
 			break
 		}
 		if iter == 4 {
-			ms.all = true
+			ms.all, ms.allPlain = true, true
 		}
 	}
 	e.setRgn(baseRgn + 6000)
@@ -335,7 +350,11 @@ func (e *Engine) loopEnter(fr *frame, li *loopInfo, pred *ssa.BasicBlock, st *St
 			fr.dry.notes = append(fr.dry.notes, n)
 		}
 		if ms.all {
-			fr.dry.noteAll()
+			if ms.allPlain {
+				fr.dry.noteAll()
+			} else {
+				fr.dry.noteAllKeeping()
+			}
 		}
 	}
 	// 2. invariants
@@ -365,6 +384,13 @@ func (e *Engine) loopEnter(fr *frame, li *loopInfo, pred *ssa.BasicBlock, st *St
 		st.assume(e.evalInv(fr, li, st, inv))
 	}
 	cut.variant, cut.varText = e.loopVariant(fr, li, st)
+	if st.calls == nil {
+		st.calls = c.Const(64, 0)
+	}
+	// the number of earlier calls is unknown at an arbitrary iteration
+	st.calls = c.FreshVar("calls", BV(64))
+	cut.headCalls = st.calls
+	cut.headHeap = st.heap
 	fr.cuts[li.head] = cut
 	st.path = append(st.path, fmt.Sprintf("loop%d", li.ordinal))
 	e.runFrom(fr, li.head, len(phis), st, k)
@@ -390,6 +416,21 @@ func (e *Engine) loopBackEdge(fr *frame, li *loopInfo, pred *ssa.BasicBlock, st 
 	for _, inv := range cut.invs {
 		t := e.evalInv(frB, li, st, inv)
 		e.obligeNoAssume(st, fr, "inv-step", fmt.Sprintf("loop%d:%s", li.ordinal, inv.name), t)
+	}
+	if ls := e.loopSpec(fr, li); ls != nil {
+		for i, cl := range ls.Steps {
+			env := e.loopEnvAll(fr, li, st)
+			env.headCalls = cut.headCalls
+			hh := cut.headHeap
+			env.old = &hh // in a step clause old(e) is e at the head of the iteration
+			goal, facts := e.clauseGoal(env, cl)
+			s3 := st
+			if len(facts) > 0 {
+				s3 = st.clone()
+				s3.facts = append(s3.facts, facts...)
+			}
+			e.obligeNoAssume(s3, fr, "step", fmt.Sprintf("loop%d:%s", li.ordinal, clauseName(cl, i)), goal)
+		}
 	}
 	if li.isRange {
 		return
@@ -527,8 +568,40 @@ func (e *Engine) loopNames(fr *frame, li *loopInfo) map[string]SVal {
 	return names
 }
 
+// loopEnvAll: like loopEnv, but every named SSA value currently bound in the frame is visible (phis of
+// inner loops, locals of the body) — for `step` clauses evaluated at a back edge.
+func (e *Engine) loopEnvAll(fr *frame, li *loopInfo, st *State) *specEnv {
+	env := e.loopEnv(fr, li, st)
+	for _, b := range fr.fn.Blocks {
+		for _, in := range b.Instrs {
+			if x, ok := in.(*ssa.Phi); ok && x.Comment != "" {
+				if v, ok := fr.regs[x]; ok {
+					if _, dup := env.vars[x.Comment]; !dup {
+						env.vars[x.Comment] = SVal{V: v, T: x.Type()}
+					}
+				}
+			}
+		}
+	}
+	for _, b := range fr.fn.Blocks {
+		for _, in := range b.Instrs {
+			switch x := in.(type) {
+			case *ssa.DebugRef:
+				if id, ok := x.Expr.(*ast.Ident); ok && !x.IsAddr {
+					if v, ok := fr.regs[x.X]; ok {
+						if _, dup := env.vars[id.Name]; !dup {
+							env.vars[id.Name] = SVal{V: v, T: x.X.Type()}
+						}
+					}
+				}
+			}
+		}
+	}
+	return env
+}
+
 func (e *Engine) loopEnv(fr *frame, li *loopInfo, st *State) *specEnv {
-	env := &specEnv{e: e, heap: &st.heap, vars: e.loopNames(fr, li), bound: map[string]*Term{}, rc: e.cur}
+	env := &specEnv{e: e, heap: &st.heap, vars: e.loopNames(fr, li), bound: map[string]*Term{}, rc: e.cur, st: st, ext: st.ext}
 	if e.cur != nil && e.cur.entry != nil {
 		env.old = &e.cur.entry.heap
 	}
